@@ -16,11 +16,8 @@ func ParseFile(filename string) (interface{}, error) {
 	if err != nil {
 		return nil, err
 	}
-	listener := NewSyntaxErrorListener()
-	parser.RemoveErrorListeners()
-	parser.AddErrorListener(listener)
 	// Invoke the root rule 'Packet' to parse the file
-	tree := parser.Packet()
+	tree, listener := ParseAll(parser)
 	if listener.HasErrors() {
 		return nil, fmt.Errorf("syntax errors found: %v", listener.Errors)
 	}
